@@ -93,7 +93,7 @@ func (c nextCase) String() string {
 // search, plus "strictly after t" and Next(Next(t)-1ns) == Next(t).
 func TestNextRapid(t *testing.T) {
 	sec := vk.Sec(t.Name())
-	vk.Check(t, 36000, 3200000, func(rt *rapid.T) {
+	vk.Check(t, 60000, 3200000, func(rt *rapid.T) {
 		o := genOpt(rt)
 		e := genExpr(rt, o)
 		text := e.text()
@@ -101,7 +101,10 @@ func TestNextRapid(t *testing.T) {
 		if rerr != nil {
 			rt.Fatalf("C04 harness error (generator and reference parser disagree): %q under %s: %v", text, o.name, rerr)
 		}
-		ks, kerr := o.parse(text)
+		ks, kerr, pv := safeParse(o, text)
+		if pv != nil {
+			rt.Fatalf("C04 violated: Parse panicked (%v)\ncase: {parser=%s expr=%q}", pv, o.name, text)
+		}
 		if kerr != nil {
 			// The statement only speaks about expressions the parser accepts; a refusal of a documented form is
 			// recorded (it shows up in the evidence as a class and lowers the non-trivial count) but not judged.
@@ -233,7 +236,10 @@ func TestEveryRapid(t *testing.T) {
 		if rerr != nil || !rs.IsEvery {
 			rt.Fatalf("C04 harness error: %q: %v", text, rerr)
 		}
-		ks, kerr := o.parse(text)
+		ks, kerr, pv := safeParse(o, text)
+		if pv != nil {
+			rt.Fatalf("C04 violated: Parse panicked (%v)\ncase: {parser=%s expr=%q}", pv, o.name, text)
+		}
 		if kerr != nil {
 			sec.Case(false, 0, "refused-by-kit")
 			sec.Sample(func() any { return fmt.Sprintf("REFUSED %q under %s: %v", text, o.name, kerr) })
